@@ -234,6 +234,9 @@ enum RegexImpl {
     // Do we want to box this? It's pretty big...
     Wrap {
         inner: RaRegex,
+        // Number of groups in the pattern (including group 0). The automata engine drops groups
+        // inside a `{0}` repeat, so its own count can be smaller.
+        n_groups: usize,
         options: RegexOptions,
     },
     Fancy {
@@ -414,6 +417,7 @@ enum CapturesImpl<'t> {
     Wrap {
         text: &'t str,
         locations: RaCaptures,
+        n_groups: usize,
     },
     Fancy {
         text: &'t str,
@@ -684,7 +688,11 @@ impl Regex {
             raw_e.to_str(&mut re_cooked, 0);
             let inner = compile::compile_inner(&re_cooked, &options)?;
             return Ok(Regex {
-                inner: RegexImpl::Wrap { inner, options },
+                inner: RegexImpl::Wrap {
+                    inner,
+                    n_groups: info.end_group,
+                    options,
+                },
                 named_groups: Arc::new(tree.named_groups),
             });
         }
@@ -917,11 +925,17 @@ impl Regex {
     ) -> Result<Option<Captures<'t>>> {
         let named_groups = self.named_groups.clone();
         match &self.inner {
-            RegexImpl::Wrap { inner, .. } => {
+            RegexImpl::Wrap {
+                inner, n_groups, ..
+            } => {
                 let mut locations = inner.create_captures();
                 inner.captures(RaInput::new(text).span(pos..text.len()), &mut locations);
                 Ok(locations.is_match().then(|| Captures {
-                    inner: CapturesImpl::Wrap { text, locations },
+                    inner: CapturesImpl::Wrap {
+                        text,
+                        locations,
+                        n_groups: *n_groups,
+                    },
                     named_groups,
                 }))
             }
@@ -946,7 +960,7 @@ impl Regex {
     /// Returns the number of captures, including the implicit capture of the entire expression.
     pub fn captures_len(&self) -> usize {
         match &self.inner {
-            RegexImpl::Wrap { inner, .. } => inner.captures_len(),
+            RegexImpl::Wrap { n_groups, .. } => *n_groups,
             RegexImpl::Fancy { n_groups, .. } => *n_groups,
         }
     }
@@ -1280,7 +1294,9 @@ impl<'t> Captures<'t> {
     /// returned. The index 0 returns the whole match.
     pub fn get(&self, i: usize) -> Option<Match<'t>> {
         match &self.inner {
-            CapturesImpl::Wrap { text, locations } => locations.get_group(i).map(|span| Match {
+            CapturesImpl::Wrap {
+                text, locations, ..
+            } => locations.get_group(i).map(|span| Match {
                 text,
                 start: span.start,
                 end: span.end,
@@ -1344,7 +1360,7 @@ impl<'t> Captures<'t> {
     /// match.
     pub fn len(&self) -> usize {
         match &self.inner {
-            CapturesImpl::Wrap { locations, .. } => locations.group_len(),
+            CapturesImpl::Wrap { n_groups, .. } => *n_groups,
             CapturesImpl::Fancy { saves, .. } => saves.len() / 2,
         }
     }
